@@ -19,6 +19,10 @@ import (
 
 type PropConfig struct {
 	Pkgs        []string `json:"pkgs"`
+	// ExtraPkgGroups: package sets loaded separately, after the obligations of Pkgs have been generated; only contracts
+	// of the packages named in a group are verified from it. Keeps the queries of the main set byte-identical when a
+	// package is added (slow proofs are sensitive to declaration order).
+	ExtraPkgGroups [][]string `json:"extra_pkg_groups"`
 	Standins    []Standin `json:"standins"`
 	TrustedBase []string `json:"trusted_base"`
 	Assumptions []string `json:"assumptions"`
@@ -131,6 +135,26 @@ func cmdCheck(args []string) {
 		results = append(results, r)
 		all = append(all, r.Obls...)
 	}
+	worldOf := map[*FuncResult]*World{}
+	for _, group := range cfg.ExtraPkgGroups {
+		w2, err := LoadWorld(*repo, *verif, group)
+		if err != nil {
+			p := filepath.Join(replayDir, "load-error.json")
+			writeJSON(p, map[string]interface{}{"obligation": "load", "error": err.Error()})
+			fmt.Printf("VIOLATION property=%s replay=%s no-failing-input-found\n", *prop, p)
+			writeEvidence(*evidenceDir, *prop, *tier, seed, nil, nil, nil, cfg, time.Since(start).Seconds(), 1, nil)
+			os.Exit(1)
+		}
+		for _, fc := range w2.Contracts.Order {
+			if !fc.HasProp(*prop) || !pkgInGroup(fc.PkgPath, group) {
+				continue
+			}
+			r := VerifyFunction(w2, fc)
+			worldOf[r] = w2
+			results = append(results, r)
+			all = append(all, r.Obls...)
+		}
+	}
 	solveAll(all, timeout)
 	if *tier == "thorough" {
 		crossCheck(all, timeout)
@@ -170,7 +194,11 @@ func cmdCheck(args []string) {
 				seenKnown[ob.Name] = true
 				continue
 			}
-			v := reportFailure(w, *prop, replayDir, ob)
+			rw := w
+			if w2, ok := worldOf[r]; ok {
+				rw = w2
+			}
+			v := reportFailure(rw, *prop, replayDir, ob)
 			viols = append(viols, v)
 		}
 	}
@@ -300,6 +328,17 @@ func reportFailure(w *World, prop, replayDir string, ob *Obligation) violation {
 		fmt.Printf("VIOLATION property=%s replay=%s no-failing-input-found\n", prop, p)
 	}
 	return v
+}
+
+// pkgInGroup: does the package path belong to one of the patterns ("./liteapi") of the group?
+func pkgInGroup(pkgPath string, group []string) bool {
+	for _, g := range group {
+		g = strings.TrimPrefix(g, "./")
+		if pkgPath == g || strings.HasSuffix(pkgPath, "/"+g) {
+			return true
+		}
+	}
+	return false
 }
 
 func writeEvidence(dir, prop, tier string, seed int64, results []*FuncResult, all []*Obligation, standins []map[string]interface{}, cfg PropConfig, wall float64, nviol int, w *World) {
